@@ -26,8 +26,9 @@ enum Behaviour { B_WHOLE,
                  B_NEVER,  // never answered; the connection's later requests wait behind it (responses go in order)
                  B_DROP,   // never answered, the server goes on with the connection's later requests
                  B_RESET_AFTER, // answered whole, then the server aborts the connection (RST)
-                 B_STALL };     // the first half of the response arrives, the rest never does
-static const char* kBehNames[] = { "whole", "two-pieces", "chunked", "whole-then-close", "never", "dropped", "whole-then-reset", "first-half-then-nothing" };
+                 B_STALL,       // the first half of the response arrives, the rest never does
+                 B_GARBAGE };   // answered with bytes that are not an HTTP response (one segment): the request must be rejected
+static const char* kBehNames[] = { "whole", "two-pieces", "chunked", "whole-then-close", "never", "dropped", "whole-then-reset", "first-half-then-nothing", "not-http" };
 
 struct Scenario
 {
@@ -38,6 +39,7 @@ struct Scenario
     bool fine = false; // requests are issued by gated harness threads that also park at every mutex acquisition
     int connectFaults = 0; // the first n connection attempts fail at once (network unreachable)
     std::vector<int> host; // per request: which of two hosts (authorities) it goes to; empty = all to the first
+    std::vector<int> head; // per request: 1 = sent with the method HEAD (empty = all GET)
     int cutAt = 0;     // > 0: responses sent in two pieces are cut after this many bytes (default: in the middle)
     int warm  = 0;     // the first `warm` requests are issued together and completed (default order) before the
                        // exploration starts: that many keep-alive connections are established and idle
@@ -45,7 +47,7 @@ struct Scenario
     {
         std::string s = std::string(fine ? "[fine-grained issue] " : "") + (warm ? "[" + std::to_string(warm) + " connections established by earlier requests] " : std::string()) + (connectFaults ? "[first " + std::to_string(connectFaults) + " connect() fail with ENETUNREACH] " : std::string()) + "threads=" + std::to_string(threads) + " maxConn=" + std::to_string(limit) + " requests=[";
         for (int i = 0; i < n; ++i)
-            s += std::string(i ? "," : "") + kBehNames[beh[i]] + (timeoutMs[i] ? "/timeout" + std::to_string(timeoutMs[i]) : "") + (host.empty() ? "" : host[i] ? "@hostB" : "@hostA");
+            s += std::string(i ? "," : "") + kBehNames[beh[i]] + (timeoutMs[i] ? "/timeout" + std::to_string(timeoutMs[i]) : "") + (host.empty() ? "" : host[i] ? "@hostB" : "@hostA") + (!head.empty() && head[i] ? "(HEAD)" : "");
         return s + "]" + (cutAt ? " responses cut after " + std::to_string(cutAt) + " bytes" : std::string()) + " D<=" + std::to_string(D);
     }
 };
@@ -255,6 +257,8 @@ struct ScriptedServer
             c.piecesSent = 99; // nothing more will come
             return;
         }
+        if (b == B_GARBAGE)
+            rsp = "BOGUS/9 nonsense\r\n\r\n";
         if (b == B_PIECES || b == B_CHUNKED)
         {
             size_t cut = sc.cutAt > 0 && (size_t)sc.cutAt < rsp.size() ? (size_t)sc.cutAt : rsp.size() / 2 + 3;
@@ -346,6 +350,8 @@ static Exec run_one(const Scenario& sc, const std::vector<uint8_t>& prefix, vr::
         auto do_issue = [&](int tag) {
             std::string url = std::string(!sc.host.empty() && sc.host[tag] ? "127.0.0.2:" : "127.0.0.1:") + std::to_string(srv.port) + "/r/" + std::to_string(tag);
             auto rb         = client.get(url);
+            if (!sc.head.empty() && sc.head[tag])
+                rb.method(Http::Method::Head);
             if (sc.timeoutMs[tag])
                 rb.timeout(std::chrono::milliseconds(sc.timeoutMs[tag]));
             ReqObs* o = &obs[tag];
@@ -575,6 +581,11 @@ static Exec run_one(const Scenario& sc, const std::vector<uint8_t>& prefix, vr::
                         whose = "late-response-of-a-timed-out-request";
                 }
                 ctx.violation("c15:fulfilled-with-another-requests-response:" + whose, detail(w));
+            }
+            else if (sc.beh[i] == B_GARBAGE)
+            {
+                if (srv.answered.count(i) && !o.rejected)
+                    ctx.violation(std::string("c15:unparsable-response-not-rejected:") + (o.fulfilled ? "fulfilled" : "pending"), detail(w));
             }
             else if (srv.answered.count(i) && !o.fulfilled && !(sc.timeoutMs[i] && o.rejected))
                 ctx.violation(std::string("c15:answered-request-not-fulfilled:") + (o.rejected ? "rejected" : "pending"), detail(w));
@@ -881,6 +892,16 @@ int main(int argc, char** argv)
                 }
                 gScenarios.push_back(s);
             }
+    // a HEAD request whose answer is refused or never comes, then ordinary requests on the same connection (round 6): what the
+    // client expects of an answer because of the request's method must not outlive that answer
+    for (int variant = 0; variant < 3; ++variant)
+    {
+        Scenario s { 1, 1, 3, {}, {}, maxD };
+        s.beh       = { variant == 1 ? B_NEVER : B_GARBAGE, B_WHOLE, B_PIECES };
+        s.timeoutMs = { variant == 1 ? 1000 : 0, 0, 0 };
+        s.head      = { variant == 2 ? 0 : 1, 0, 0 };
+        gScenarios.push_back(s);
+    }
     // every cut position of a response (round 6): two requests over one keep-alive connection, each answered in two pieces cut
     // after k bytes, plain and chunked - "responses arriving in arbitrary segmentation"
     for (int chunked = 0; chunked < 2; ++chunked)
